@@ -45,7 +45,7 @@ CHECKS = {
             "Python-internal dunder look-ups are not counted as accesses; indices passed to notifications are taken from the real call and checked against the atom count"),
     "C04": ("proof: Lean theorems on the calculator layer over the M-machine (ASE get_property/check_state/reset/calculate protocol, three calculator styles, what criteria/save_state/revert_state/logger do to the calculator): getEnergy_spec (a cached result is never attributed to another configuration), einv_trial (reported energy = reference energy = from-scratch energy, remembered positions = current, after accepted/rejected/failed trials), ainv_trial_of / forces_history (cached result ARRAYS — forces — read after any trial are those of the current atoms also for calculators that write their arrays in place; forces_stale_when_aliased is the witness for the pinned by-reference behaviour, repaired), energy_history / energy_history_grand (the logged and the reference energy are the from-scratch energy at EVERY position of any history of displacement-type, cell, Hamiltonian and single exchange trials), evals_trial_of / evals_history (any driver: at most one evaluation per trial that reaches its criteria, exactly one when the trial configuration differs from the cached one, none for a failed trial, a rejection or a logger read), one_eval_per_trial, reject_and_log_free, stateless_always_fresh; known finding proved as peratom_unusable_after_rejected_exchange; tied to the code by scripted histories with three real ASE-protocol calculators, evaluation counters and an independent from-scratch evaluation after every trial",
             "§6 C04", "Lean 4 invariant proofs over a calculator-cache model + differential correspondence (energies, reference energy, evaluation counts per trial) + from-scratch oracle",
-            "einv_trial is proved for every driver (canonical, Hamiltonian, isobaric/isotension, grand canonical) on displacement-type trees, cell moves, Hamiltonian moves and single exchange moves; evaluation counts (evals_trial_of) for every driver given the restoration facts, instantiated over whole histories for canonical/Hamiltonian/isobaric (evals_history); composite exchange is covered by correspondence and oracle only; calculators must follow ASE's protocol"),
+            "einv_trial is proved for every driver (canonical, Hamiltonian, isobaric/isotension, grand canonical) on displacement-type trees, cell moves, Hamiltonian moves and single exchange moves; evaluation counts (evals_trial_of) for every driver given the restoration facts, instantiated over whole histories for canonical/Hamiltonian/isobaric (evals_history); energy bookkeeping for CompositeExchangeMove trials is proved too (einv_trial_composite_exchange; deletion direction for members sharing one labelling); plain composites with exchange members (known finding) by correspondence and oracle only; calculators must follow ASE's protocol"),
     "C06": ("proof (partial): Lean theorems seed_honoured (every seed incl. 0; witness seed_zero_replaced_raw for the unfixed line), restored_seed, run_deterministic / same_seed_same_trajectory (trajectory, histories, log text and final state are functions of configuration and stream for any state of the global generators; step_is_trial ties each step to MM.trial), different_streams_differ_partial on a model of Driver.__init__ and of yield_moves/step/irun over the M-machine; tied to the code by Driver(seed=n)._seed on all seven drivers with a stubbed entropy source, scripted whole runs on the real drivers, and bit-for-bit double runs of 8 simulation kinds under differently seeded and perturbed, recorder-poisoned global generators",
             "§6 C06", "Lean 4 (core) + differential correspondence with a scripted generator + double-run / poisoned-globals / recording-generator oracles + AST scan",
             "NOT verified: that PCG64/SeedSequence map different seeds to different streams (empirical seed-ignored check only); equal seed => equal stream is numpy's contract; calculators assumed deterministic"),
